@@ -50,7 +50,8 @@ CFG = {
     "rule": (
         "a history case = one fresh service instance + one generated sequence of SendSMSCode / VerifySMSCode calls (6-30 calls, 1-5 "
         "pairs) with the verifier's code / hash derived from what was observed (right, stale, mutated, longer, shorter, empty, another "
-        "pair's, literal); non-trivial when it verifies a pair to which a send went out earlier; cfgvalues histories put MaxVerifyCount / MaxCount / CacheSize / the durations at 0, +-1, MaxInt, MaxInt-1, MinInt, 2^31+-1, MaxInt64 ns (MaxInt, MaxInt-1, MinInt, 2^31 on every run); timed-ttl-refused histories have 0 < TTL < MinInterval with refused sends between the send and verifications clearly before / clearly after the ORIGINAL deadline; codelen histories put CodeLen at buffer boundaries (31..33, 63..65, 127..129, 255..257, 1000..6000); long-* histories repeat one call up to 131075 times (run-length form); a nonce case = one VerifGenNonceStr run "
+        "pair's, literal, and structured near-misses: hash upper-cased / mixed case / with a space, newline, 0x prefix / doubled; code "
+        "with a leading zero dropped or added, a sign, full-width digits, trailing newline or space - all of them once against one sent code in two corpus histories on every run); non-trivial when it verifies a pair to which a send went out earlier; cfgvalues histories put MaxVerifyCount / MaxCount / CacheSize / the durations at 0, +-1, MaxInt, MaxInt-1, MinInt, 2^31+-1, MaxInt64 ns (MaxInt, MaxInt-1, MinInt, 2^31 on every run); timed-ttl-refused histories have 0 < TTL < MinInterval with refused sends between the send and verifications clearly before / clearly after the ORIGINAL deadline; codelen histories put CodeLen at buffer boundaries (31..33, 63..65, 127..129, 255..257, 1000..6000); long-* histories repeat one call up to 131075 times (run-length form); a nonce case = one VerifGenNonceStr run "
         "with scripted draws, non-trivial when length > 0 and the alphabet is non-empty; a sample case = 200 codes from the real "
         "generator; distinct = distinct generator script"
     ),
